@@ -38,12 +38,37 @@ func c04Days(c *ctx) {
 	sods := []int{0, 1, 43199, 43200, 43201, 86399}
 	mss := []int{0, 1, 250, 499, 501, 750, 999}
 	n := 0
+	days := [][3]int{}
+	inYears := map[int]bool{}
 	for _, y := range years {
+		inYears[y] = true
 		if !c.mine(y) {
 			continue
 		}
 		for m := 1; m <= 12; m++ {
 			for d := 1; d <= 31; d++ {
+				days = append(days, [3]int{y, m, d})
+			}
+		}
+	}
+	if c.tier != "thorough" {
+		// the places where the day-count formulas change case: the turn of February in every century year and in
+		// the leap year before it, and the ends of those years (the thorough tier has every day anyway)
+		for cy := 100; cy <= 9900; cy += 100 {
+			for _, y := range []int{cy - 4, cy} {
+				if inYears[y] || !c.mine(y) {
+					continue
+				}
+				for _, md := range [][2]int{{1, 1}, {2, 27}, {2, 28}, {2, 29}, {2, 30}, {3, 1}, {3, 2}, {12, 31}} {
+					days = append(days, [3]int{y, md[0], md[1]})
+				}
+			}
+		}
+	}
+	for _, x := range days {
+		{
+			{
+				y, m, d := x[0], x[1], x[2]
 				n++
 				s0, p := safeSolar(y, m, d, 0, 0, 0)
 				f := obj{"ev": "C04Day", "y": y, "m": m, "d": d, "p": b2i(p)}
